@@ -43,9 +43,10 @@ class NotificationProtocolEntity(ProtocolEntity):
             "from"      : self._from,
             "offline"   : "1" if self.offline else "0",
             "type"      : self._type,
-            "id"        : self._id,
-            "notify"    : self.notify
+            "id"        : self._id
         }
+        if self.notify is not None:
+            attribs["notify"] = self.notify
        
         return self._createProtocolTreeNode(attribs, children = None, data = None)
 
